@@ -427,6 +427,18 @@ pub fn universe(mapping: &[u8], rng: &mut Rng, cfg: &UniCfg) -> Vec<Query> {
             q.push(Query::TraceTyped(long.clone()));
             q.push(Query::TraceText(format!("Caused by: {}: first\n{}", known, long)));
         }
+        // one throwable with 140 frames cycling over all sampled frames, the same frame recurring with
+        // different files
+        if !frame_texts.is_empty() {
+            let mut one = format!("{}: many frames\n", exc);
+            for i in 0..140 {
+                let f = &frame_texts[i % frame_texts.len()];
+                one.push_str(&f.replace("SourceFile", ["SourceFile", "Other.java", "Third.kt"][(i / frame_texts.len()) % 3]));
+                one.push('\n');
+            }
+            q.push(Query::TraceTyped(one.clone()));
+            q.push(Query::TraceText(one));
+        }
         // seeded mutations of the base trace (delete / duplicate / swap lines, splice odd characters)
         let base_lines: Vec<&str> = t.lines().collect();
         for _ in 0..6 {
